@@ -204,18 +204,16 @@ let fmt_sel (s : Meta.sel) : string =
         (string_of_n m.Meta.m_next) (string_of_n m.Meta.m_np) (string_of_n m.Meta.m_fl)
 
 (* select <pagesize> <file>...: which header does the model's open pick *)
+let cmd_select_impl : (int -> string -> Meta.sel) ref = ref (fun _ _ -> Meta.SelNone)
 let cmd_select (ps : int) (files : string list) : unit =
-  L.iter (fun f ->
-    let s = read_file f in
-    let pg i = bytes_of_string (S.sub s (i * ps) (min ps 256)) in
-    let ct = Consts.meta_checks_page_type in
-    let r = Meta.select_slots (n_of_int ps) (Meta.read_slot ct (pg 0)) (Meta.read_slot ct (pg 1)) in
-    Printf.printf "%s %s\n" f (fmt_sel r)) files
+  L.iter (fun f -> Printf.printf "%s %s\n" f (fmt_sel (!cmd_select_impl ps f))) files
 
 let reader_of_string (s : string) : Codec.reader =
   fun off len ->
     let o = int_of_n off and l = int_of_n len in
     if o + l <= S.length s then Some (bytes_of_string (S.sub s o l)) else None
+
+let () = cmd_select_impl := (fun ps f -> Tree.open_meta (reader_of_string (read_file f)) (n_of_int ps))
 
 let fmt_res (f : 'a -> string) (r : 'a Codec.res) : string =
   match r with Codec.Ok a -> f a | Codec.Bad m -> "bad:" ^ S.map (fun c -> if c = ' ' then '_' else c) (string_of_coq m)
